@@ -310,6 +310,12 @@ func (st Site) verdict(r Reading) string {
 // either reader sees a host outside the root domains.
 func (st Site) Where(ref string) string {
 	a, b := st.verdict(rfcRead(ref)), st.verdict(browserRead(ref))
+	// a reference the RFC reader refuses (a backslash in the authority, say) is still split SOMEHOW by clients that
+	// are not browsers: when the text between "//" and the next delimiter, after its last "@", names a host outside
+	// the root domains, nobody may be sent there, whatever a browser would make of it
+	if a != "out" && a != "idp" && a != "in" && st.verdict(lexicalRead(ref)) == "out" {
+		return "out"
+	}
 	for _, v := range []string{"out", "idp", "in"} {
 		if a == v || b == v {
 			return v
